@@ -418,6 +418,47 @@ class Minimizer(object):
                     return self.normalise(cand)
         return prog
 
+    def simplify(self, prog):
+        """replace whole arguments / parenthesised groups / literals by the identifier a"""
+        for ui, u in enumerate(prog["units"]):
+            head, text = self.head_of(u)
+            if head is None:
+                continue
+            pieces = self.split(text)
+            toks = [t for _, t in pieces]
+            # matching parens
+            stack, groups = [], []
+            for i, t in enumerate(toks):
+                if t == "(":
+                    stack.append(i)
+                elif t == ")" and stack:
+                    groups.append((stack.pop(), i))
+            cands = []
+            for a, b in sorted(groups, key=lambda g: g[0] - g[1]):      # larger groups first
+                if b - a > 1:
+                    cands.append((a, b + 1))                            # the whole group
+                # its top-level segments
+                depth, start = 0, a + 1
+                for i in range(a + 1, b + 1):
+                    t = toks[i]
+                    if t == "(":
+                        depth += 1
+                    elif t == ")" and i < b:
+                        depth -= 1
+                    if (t == "," and depth == 0) or i == b:
+                        if i - start > 1 or (i - start == 1 and toks[start] != "a"):
+                            cands.append((start, i))
+                        start = i + 1
+            for i, t in enumerate(toks):
+                if t[0] in "\"'" or t[0].isdigit():
+                    cands.append((i, i + 1))
+            for a, b in cands:
+                np_ = pieces[:a] + [(pieces[a][0], "a")] + pieces[b:]
+                cand = self.with_text(prog, ui, head + self.join(np_))
+                if self.fails(cand):
+                    return self.simplify(cand)
+        return prog
+
     def run(self, prog):
         uses = {i for i, u in enumerate(prog["units"]) if u["k"] == "use"}
         keep = uses if len(uses) == 1 else set()
@@ -427,6 +468,7 @@ class Minimizer(object):
             for ui in range(len(prog["units"])):
                 prog = self.shrink_text(prog, ui)
             prog = self.normalise(prog)
+            prog = self.simplify(prog)
             uses = [i for i, u in enumerate(prog["units"]) if u["k"] == "use"]
             prog = self.units(prog, set(uses) if len(uses) == 1 else set())
             if json.dumps(prog) == before:
@@ -444,11 +486,39 @@ def _same_class(v, want):
     return v in ("mismatch", "error-exit") if want in ("mismatch", "error-exit") else v == want
 
 
-def signature(feats):
-    sal = sorted(f for f in feats if f not in GENERIC)
+def salient(feats):
+    sal = set(f for f in feats if f not in GENERIC)
     if not sal:
-        sal = sorted(feats) or ["plain-text"]
-    return "+".join(sal)
+        sal = set(feats) or {"plain-text"}
+    return sal
+
+
+_known = None
+
+
+def known_signatures():
+    """(category, frozenset(features)) of every listed finding (open or fixed), most specific first.  A witness
+    whose feature set contains a listed signature of the same category is reported under that finding's key; any
+    other witness is reported under its full feature set (a new key)."""
+    global _known
+    if _known is None:
+        _known = []
+        for f in core.load_findings():
+            if f.get("property") != "C08":
+                continue
+            parts = f["key"].split(":")
+            cat, sig = ":".join(parts[1:-1]), parts[-1]
+            _known.append((cat, frozenset(sig.split("+"))))
+        _known.sort(key=lambda cs: (-len(cs[1]), sorted(cs[1])))
+    return _known
+
+
+def make_key(cat, feats):
+    sal = salient(feats)
+    for c, sig in known_signatures():
+        if c == cat and sig <= sal:
+            return cat + ":" + "+".join(sorted(sig))
+    return cat + ":" + "+".join(sorted(sal))
 
 
 def diff_kind(exp, got):
@@ -562,7 +632,7 @@ def _analyse(res, prog, d, verdict, o, expected):
             continue
         done += 1
         _e, f0 = _ref(sub)
-        mz = Minimizer(d, v, f0 or (), budget=40 if v == "died" else 260)
+        mz = Minimizer(d, v, f0 or (), budget=40 if v in ("died", "runaway") else 220)
         if not mz.fails(sub):
             # not reproducible in isolation (should not happen)
             res.count("unreproducible", 1)
@@ -585,15 +655,15 @@ def _analyse(res, prog, d, verdict, o, expected):
             res.count("witness_not_confirmed", 1)
             continue
         if v2 == "died":
-            how = o2.r.how()
-            where = "" if "stack-overflow" in how else "@" + ("/".join(o2.r.frames(2)) or "?")
-            key = "died:%s%s:%s" % (how, where, signature(feats))
+            how = o2.r.how().replace(":", "-")
+            where = "" if "stack-overflow" in how else "@" + ("/".join(o2.r.frames(2)) or "?").replace(":", ".")
+            key = make_key("died-%s%s" % (how, where), feats)
         elif v2 == "error-exit":
-            key = "error-exit:" + signature(feats)
+            key = make_key("error-exit", feats)
         elif v2 == "runaway":
-            key = "runaway-expansion:" + signature(feats)
+            key = make_key("runaway-expansion", feats)
         else:
-            key = "token-mismatch:" + signature(feats)
+            key = make_key("token-mismatch", feats)
         if key in seen:
             continue
         seen.add(key)
